@@ -6,6 +6,10 @@ From CB Require Import Gen GenProofs Machine MachineFacts.
 Import ListNotations.
 Open Scope nat_scope.
 
+Section Gen.
+Context {RF : RecFun}.
+
+
 Definition ev (L : list event) (p : nat) : option event := nth_error L p.
 
 Lemma ev_snoc L x p e : ev (L ++ [x]) p = Some e ->
@@ -85,7 +89,7 @@ Record LogInv (n : nat) (L : list event) : Prop := {
       exists q o, ev L q = Some o /\ e_loc o = LGen /\ e_kind o = KOdd /\ e_att o = e_att e /\ q < e_rel e;
   L_even : forall q e, ev L q = Some e -> e_kind e = KEven ->
       q < e_rel e /\ forall i, i < n -> exists p c, p < q /\ ev L p = Some c /\ e_loc c = LCell i /\ e_kind c = KCell /\ e_att c = e_att e;
-  L_cell_val : forall p e i, ev L p = Some e -> e_kind e = KCell -> e_loc e = LCell i -> e_val e = nth i (rec_of n (e_att e)) 0%Z;
+  L_cell_val : forall p e i, ev L p = Some e -> e_kind e = KCell -> e_loc e = LCell i -> e_val e = nth i (recf n (e_att e)) 0%Z;
   L_gen_val : (Z.of_nat (evens L) < 32767)%Z -> forall p e, ev L p = Some e -> e_loc e = LGen ->
       e_val e = match e_kind e with
                 | KOdd => (2 * Z.of_nat (evens_upto L p) + 1)%Z
@@ -106,7 +110,7 @@ Definition new_ok (n : nat) (L : list event) (x : event) : Prop :=
   | KEven => e_loc x = LGen /\ 0 < e_att x /\ length L < e_rel x /\
              (forall i, i < n -> exists p c, ev L p = Some c /\ e_loc c = LCell i /\ e_kind c = KCell /\ e_att c = e_att x) /\
              ((Z.of_nat (evens L) + 1 < 32767)%Z -> e_val x = (2 * Z.of_nat (evens L + 1))%Z)
-  | KCell => (exists i, e_loc x = LCell i /\ e_val x = nth i (rec_of n (e_att x)) 0%Z) /\ 0 < e_att x /\
+  | KCell => (exists i, e_loc x = LCell i /\ e_val x = nth i (recf n (e_att x)) 0%Z) /\ 0 < e_att x /\
              (exists q o, ev L q = Some o /\ e_loc o = LGen /\ e_kind o = KOdd /\ e_att o = e_att x /\ q < e_rel x)
   end.
 
@@ -179,12 +183,12 @@ Record WInv (c : cfg) (w : wst) : Prop := {
   W_evens : evens (w_log w) <= w_att w;
   W_pc : match w_pc w with
          | WIdle | WDead => True
-         | WLoaded g => g = latest_val LGen (w_log w) /\ w_rec w = rec_of (c_cells c) (w_att w) /\ 0 < w_att w /\ evens (w_log w) < w_att w
+         | WLoaded g => g = latest_val LGen (w_log w) /\ w_rec w = recf (c_cells c) (w_att w) /\ 0 < w_att w /\ evens (w_log w) < w_att w
          | WOddDone p =>
-             w_rec w = rec_of (c_cells c) (w_att w) /\ 0 < w_att w /\ evens (w_log w) < w_att w /\ odd_of (w_log w) (w_att w) (length (w_log w)) /\
+             w_rec w = recf (c_cells c) (w_att w) /\ 0 < w_att w /\ evens (w_log w) < w_att w /\ odd_of (w_log w) (w_att w) (length (w_log w)) /\
              ((Z.of_nat (evens (w_log w)) < 32767)%Z -> p = (2 * Z.of_nat (evens (w_log w)) + 1)%Z)
          | WCopy p todo =>
-             w_rec w = rec_of (c_cells c) (w_att w) /\ 0 < w_att w /\ evens (w_log w) < w_att w /\ odd_of (w_log w) (w_att w) (w_relview w) /\
+             w_rec w = recf (c_cells c) (w_att w) /\ 0 < w_att w /\ evens (w_log w) < w_att w /\ odd_of (w_log w) (w_att w) (w_relview w) /\
              ((Z.of_nat (evens (w_log w)) < 32767)%Z -> p = (2 * Z.of_nat (evens (w_log w)) + 1)%Z) /\
              exists done, c_w_order c = done ++ todo /\
                forall i, In i done -> exists pos ce, ev (w_log w) pos = Some ce /\ e_loc ce = LCell i /\ e_kind ce = KCell /\ e_att ce = w_att w
@@ -300,7 +304,7 @@ Proof.
 Qed.
 
 Theorem w_step_inv c w r k w' it : safe_cfg c = true -> WInv c w ->
-  (w_pc w = WIdle -> w_att w < k /\ r = rec_of (c_cells c) k) ->
+  (w_pc w = WIdle -> w_att w < k /\ r = recf (c_cells c) k) ->
   w_step c w r k = (w', it) -> WInv c w'.
 Proof.
   intros Hs I Hk H. destruct (safe_parts c Hs) as (Sf & Se & _ & _ & _ & Pw & _ & Hn).
@@ -371,3 +375,5 @@ Proof.
         -- exists (length (w_log w)), x. rewrite ev_last. cbn. auto.
   - inversion H; subst. exact I.
 Qed.
+
+End Gen.
